@@ -71,7 +71,7 @@ def wire_jobs(rng, thorough):
     scheduler), the device reporting values in between; the trace is replayed on the L3 model (harness/wire.py)"""
     from .. import gen
     T = core.tables()
-    return [(gen.subunit_wire(rng, T, writes=False), rng.randrange(10 ** 9), 0) for _ in range(20000 if thorough else 400)]
+    return [(gen.subunit_wire(rng, T, writes=rng.random() < 0.5), rng.randrange(10 ** 9), 0) for _ in range(20000 if thorough else 400)]
 
 
 def run(ctx: core.Ctx):
